@@ -136,13 +136,26 @@ def norm_target(t):
     return os.path.normpath(t)
 
 
+def link_target(files, rel):
+    """tree path of the regular file a symbolic link leads to, None when it dangles"""
+    spec = files.get(rel)
+    if not (isinstance(spec, dict) and "symlink" in spec):
+        return None
+    t = os.path.normpath(os.path.join(os.path.dirname(rel), spec["symlink"]))
+    if t in files and spec_bytes(files[t]) is not None:
+        return t
+    return None
+
+
 def _kind(files, rel):
     if rel == ".":
         return "dir"
     spec = files.get(rel)
     if spec is not None:
         if isinstance(spec, dict) and "symlink" in spec:
-            return "symlink"
+            # a link to a regular file is that file under the link's name (the generators only link to files
+            # that no argument selects under their own name)
+            return "linkfile" if link_target(files, rel) else "symlink"
         if isinstance(spec, dict) and "dir" in spec:
             return "dir"
         return "file"
@@ -192,7 +205,7 @@ def model(case, lf):
         k = _kind(files, rel)
         if k is None or k == "symlink":  # only dangling symlinks are ever generated
             missing.append(t)
-        elif k == "file":
+        elif k in ("file", "linkfile"):
             order.append(rel)
         else:
             prefix = "" if rel == "." else rel + "/"
@@ -202,13 +215,13 @@ def model(case, lf):
                 fk = _kind(files, f)
                 if fk == "symlink":
                     skipped_links.append(f)
-                elif fk == "file" and glob_selected(f, opts.get("globs")):
+                elif fk in ("file", "linkfile") and glob_selected(f, opts.get("globs")):
                     order.append(f)
     if len(set(order)) != len(order):
         raise svlib.HarnessError("generator produced overlapping arguments")
     selected = {}
     for rel in order:
-        data = spec_bytes(files[rel])
+        data = spec_bytes(files[link_target(files, rel) or rel])
         rg = opts.get("range")
         if rg and (rg[0] in (None, 0)) and (rg[1] is None or rg[1] >= len(data)):
             # a range that covers the whole text is no restriction: the expectation is taken from the
